@@ -392,8 +392,10 @@ class Ctx:
         ev = {"property_id": self.prop, "tier": self.tier, "seed": int(self.seed), "level": "model_checking",
               "coverage": cov, "assumptions": self.assumptions, "wall_s": round(time.time() - self.t0, 2),
               "violations": nviol}
-        os.makedirs(os.path.join(VERIF, "evidence"), exist_ok=True)
-        with open(os.path.join(VERIF, "evidence", self.prop + ".json"), "w") as f:
+        # suites outside the listed properties (X..) keep their record under notes/, evidence/ holds the listed properties only
+        sub = "evidence" if self.prop.startswith("C") else "notes"
+        os.makedirs(os.path.join(VERIF, sub), exist_ok=True)
+        with open(os.path.join(VERIF, sub, self.prop + (".json" if sub == "evidence" else ".record.json")), "w") as f:
             json.dump(ev, f, indent=1, default=str)
 
 
